@@ -70,6 +70,58 @@ class Tup(Value):
         return hash(('Tup', tuple(self.items)))
 
 
+class NTup(Tup):
+    """an instance of a collections.namedtuple / typing.NamedTuple class: a tuple whose items also have names (and, for a class
+    statement deriving from one, methods)"""
+    __slots__ = ('fields', 'ci')
+
+    def __init__(self, items, fields, ci=None):
+        Tup.__init__(self, items, 'tuple')
+        self.fields = list(fields)
+        self.ci = ci
+
+    def field(self, name):
+        return self.items[self.fields.index(name)] if name in self.fields else None
+
+
+class NTClass(Value):
+    """what collections.namedtuple(...) returns (ci: the class statement deriving from it, if any)"""
+
+    def __init__(self, name, fields, defaults=(), ci=None):
+        self.name, self.fields, self.defaults, self.ci = name, list(fields), list(defaults), ci
+
+    def make(self, args, kwargs):
+        n = len(self.fields)
+        if len(args) > n or any(k not in self.fields for k in kwargs):
+            return Unknown('namedtuple %s called with arguments it does not take' % self.name)
+        items = list(args) + [None] * (n - len(args))
+        for k, v in kwargs.items():
+            i = self.fields.index(k)
+            if items[i] is not None:
+                return Unknown('namedtuple %s: field %s given twice' % (self.name, k))
+            items[i] = v
+        for i in range(n):
+            if items[i] is None:
+                di = i - (n - len(self.defaults))
+                if di < 0:
+                    return Unknown('namedtuple %s: field %s missing' % (self.name, self.fields[i]))
+                items[i] = self.defaults[di]
+        return NTup(items, self.fields, self.ci)
+
+    def __repr__(self):
+        return 'namedtuple %s%r' % (self.name, tuple(self.fields))
+
+
+class PartialV(Value):
+    """functools.partial(func, *args, **kwargs)"""
+
+    def __init__(self, func, args, kwargs):
+        self.func, self.args, self.kwargs = func, list(args), dict(kwargs)
+
+    def __repr__(self):
+        return 'partial(%r)' % (self.func,)
+
+
 class Slice(Value):
     __slots__ = ('lo', 'hi', 'step')
 
@@ -532,14 +584,41 @@ class Interp:
             return self.call_funcinfo(f.fi, args, kwargs, f.bound, node, closure=f.closure)
         if isinstance(f, LambdaRef):
             env = {}
-            for p, v in zip([x.arg for x in f.node.args.args], args):
-                env[p] = v
+            a = f.node.args
+            names = [x.arg for x in a.posonlyargs + a.args]
+            kw = dict(kwargs)
+            for i, p in enumerate(names):
+                if i < len(args):
+                    env[p] = args[i]
+                elif p in kw:
+                    env[p] = kw.pop(p)
+                else:
+                    di = i - (len(names) - len(a.defaults))
+                    env[p] = self.ev(a.defaults[di], f.frame) if di >= 0 else Unknown('missing arg %s' % p)
+            if a.vararg:
+                env[a.vararg.arg] = Tup(list(args[len(names):]))
+            for k_, d in zip(a.kwonlyargs, a.kw_defaults):
+                env[k_.arg] = kw.pop(k_.arg) if k_.arg in kw else (self.ev(d, f.frame) if d is not None else Unknown('missing kwonly %s' % k_.arg))
+            if a.kwarg:
+                dv = DictV()
+                for k_, v in kw.items():
+                    dv.set(Const(k_), v)
+                env[a.kwarg.arg] = dv
             fr = Frame(f.frame.fi, f.frame.module, env, parent=f.frame)
             return self.ev(f.node.body, fr)
+        if isinstance(f, PartialV):
+            kw = dict(f.kwargs)
+            kw.update(kwargs)
+            return self.call_value(f.func, f.args + list(args), kw, node, frame)
+        if isinstance(f, NTClass):
+            return f.make(list(args), dict(kwargs))
         if isinstance(f, ClassRef):
             r = self.dom.instantiate(f.ci, args, kwargs, node)
             if r is not None:
                 return r
+            nt = self._namedtuple_class(f.ci)
+            if nt is not None:
+                return nt.make(list(args), dict(kwargs))
             o = Obj(f.ci)
             init = self.db.method(f.ci, '__init__')
             if init is not None:
@@ -553,6 +632,10 @@ class Interp:
             if r is not out:
                 self.fwd[id(out)] = (out, r)
             return r
+        if isinstance(f, ExtRef) and f.dotted.split('.')[0] in ('functools', 'operator', 'collections', 'typing'):
+            r = self._stdlib_ext(f.dotted, args, kwargs, node, frame)
+            if r is not None:
+                return r
         if isinstance(f, ExtRef):
             self.emit('extcall', name=f.dotted, args=list(args), kwargs=dict(kwargs), node=node)
             r = self._concrete_ext(f.dotted, args, kwargs)
@@ -575,6 +658,96 @@ class Interp:
             if r is not None:
                 return r
         return Unknown('call of %r' % (f,))
+
+    _OPERATOR = {'add': ast.Add, 'sub': ast.Sub, 'mul': ast.Mult, 'truediv': ast.Div, 'floordiv': ast.FloorDiv, 'mod': ast.Mod, 'pow': ast.Pow,
+                 'and_': ast.BitAnd, 'or_': ast.BitOr, 'xor': ast.BitXor, 'matmul': ast.MatMult,
+                 'iadd': ast.Add, 'isub': ast.Sub, 'imul': ast.Mult, 'itruediv': ast.Div}
+    _OPERATOR_CMP = {'eq': ast.Eq, 'ne': ast.NotEq, 'lt': ast.Lt, 'le': ast.LtE, 'gt': ast.Gt, 'ge': ast.GtE}
+
+    def _stdlib_ext(self, dotted, args, kwargs, node, frame):
+        """functools.partial / reduce, operator.*, collections.namedtuple: plain plumbing, the same in every domain"""
+        if dotted == 'functools.partial' and args:
+            return PartialV(args[0], args[1:], kwargs)
+        if dotted == 'functools.reduce' and 2 <= len(args) <= 3 and not kwargs:
+            its = self.iterate(args[1], node)
+            if its is None:
+                return Unknown('reduce over a sequence that is not followed')
+            its = list(its)
+            if len(args) == 3:
+                acc = args[2]
+            elif its:
+                acc = its.pop(0)
+            else:
+                return Unknown('reduce of an empty sequence')
+            for x in its:
+                acc = self.call_value(args[0], [acc, x], {}, node, frame)
+            return acc
+        if dotted == 'collections.namedtuple' and len(args) >= 2 and isinstance(args[0], Const):
+            fl = args[1]
+            names = None
+            if isinstance(fl, Const) and isinstance(fl.v, str):
+                names = fl.v.replace(',', ' ').split()
+            elif isinstance(fl, Tup) and all(isinstance(x, Const) and isinstance(x.v, str) for x in fl.items):
+                names = [x.v for x in fl.items]
+            if names is None:
+                return Unknown('namedtuple with fields that are not followed')
+            dflt = kwargs.get('defaults')
+            dl = self.iterate(dflt, node) if dflt is not None and not (isinstance(dflt, Const) and dflt.v is None) else []
+            if dl is None:
+                return Unknown('namedtuple with defaults that are not followed')
+            return NTClass(args[0].v, names, dl)
+        if dotted.startswith('operator.'):
+            nm = dotted.split('.', 1)[1]
+            if nm in self._OPERATOR and len(args) == 2:
+                return self.binop(self._OPERATOR[nm](), args[0], args[1], node)
+            if nm in self._OPERATOR_CMP and len(args) == 2:
+                t = self.compare(self._OPERATOR_CMP[nm](), args[0], args[1], node)
+                return Const(t) if t is not None else None
+            if nm == 'neg' and len(args) == 1:
+                return self.ev_unary_value(ast.USub(), args[0], node)
+            if nm == 'getitem' and len(args) == 2:
+                return self.subscript(args[0], args[1], node)
+            if nm in ('itemgetter', 'attrgetter') and args and all(isinstance(a, Const) for a in args):
+                return PartialV(ExtRef('operator._' + nm), list(args), {})
+            if nm in ('_itemgetter', '_attrgetter') and len(args) >= 2:
+                keys, obj = args[:-1], args[-1]
+                get = (lambda k: self.subscript(obj, k, node)) if nm == '_itemgetter' else (lambda k: self.getattr(obj, k.v, node, frame))
+                vals = [get(k) for k in keys]
+                return vals[0] if len(vals) == 1 else Tup(vals)
+        return None
+
+    def _namedtuple_class(self, ci):
+        """NTClass for a class statement that derives from a namedtuple (class X(namedtuple('X', 'a b')), class X(_XBase) with
+        _XBase = namedtuple(...), class X(NamedTuple) with annotated fields); None for any other class"""
+        cache = self.__dict__.setdefault('_nt_cache', {})
+        if ci.qual in cache:
+            return cache[ci.qual]
+        cache[ci.qual] = None
+        out = None
+        if not any(m in ci.methods for m in ('__new__', '__init__')):
+            for b in ci.node.bases:
+                txt = ast.unparse(b)
+                if txt in ('NamedTuple', 'typing.NamedTuple'):
+                    fr = Frame(None, ci.module, {})
+                    defaults = [self.ev(v, fr) for _, v in ci.fields if v is not None]
+                    out = NTClass(ci.name, [n for n, _ in ci.fields], defaults, ci)
+                    break
+                if isinstance(b, ast.Call) or (isinstance(b, ast.Name) and b.id in ci.module.assigns):
+                    fr = Frame(None, ci.module, {})
+                    v = self.ev(b, fr)
+                    if isinstance(v, NTClass):
+                        out = NTClass(ci.name, v.fields, v.defaults, ci)
+                        break
+                if isinstance(b, ast.Name):
+                    r = self.db.resolve_name(ci.module, b.id)
+                    from .db import ClassInfo as _CI
+                    if isinstance(r, _CI):
+                        base = self._namedtuple_class(r)
+                        if base is not None:
+                            out = NTClass(ci.name, base.fields, base.defaults, ci)
+                            break
+        cache[ci.qual] = out
+        return out
 
     def _concrete_ext(self, dotted, args, kwargs):
         """numpy bookkeeping functions on fully concrete integer sequences (request lists, orders): evaluated exactly"""
@@ -637,6 +810,22 @@ class Interp:
                 d = DictV()
                 for k_ in keys:
                     d.set(k_, args[1] if len(args) > 1 else Const(None))
+                return d
+        if isinstance(recv, NTClass) and name == '_make' and len(args) == 1:
+            its = self.iterate(args[0], node)
+            return recv.make(its, {}) if its is not None else Unknown('_make of a sequence that is not followed')
+        if isinstance(recv, NTup):
+            if name == '_replace' and not args:
+                items = list(recv.items)
+                for k, v in kwargs.items():
+                    if k not in recv.fields:
+                        return Unknown('_replace of a field the tuple does not have')
+                    items[recv.fields.index(k)] = v
+                return NTup(items, recv.fields, recv.ci)
+            if name == '_asdict' and not args:
+                d = DictV()
+                for k, v in zip(recv.fields, recv.items):
+                    d.set(Const(k), v)
                 return d
         if isinstance(recv, Tup):
             if name == 'append' and recv.kind == 'list':
@@ -820,6 +1009,14 @@ class Interp:
         if name == 'hasattr' and len(args) == 2 and isinstance(args[1], Const):
             if isinstance(args[0], Obj):
                 return Const(args[1].v in args[0].attrs or self.db.method(args[0].ci, args[1].v) is not None)
+            if isinstance(args[0], NTup):
+                return Const(args[1].v in args[0].fields or hasattr((), args[1].v) or (args[0].ci is not None and self.db.method(args[0].ci, args[1].v) is not None))
+            if isinstance(args[0], Tup) and args[0].kind in ('list', 'tuple', 'set', 'range'):
+                return Const(hasattr({'list': [], 'tuple': (), 'set': set(), 'range': range(0)}[args[0].kind], args[1].v))
+            if isinstance(args[0], DictV):
+                return Const(hasattr({}, args[1].v))
+            if isinstance(args[0], Const) and not isinstance(args[0].v, type(Ellipsis)):
+                return Const(hasattr(args[0].v, args[1].v))
             return Unknown('hasattr')
         if name == 'callable' and args:
             if isinstance(args[0], (FuncRef, LambdaRef, ClassRef, ExtRef, BuiltinRef, BoundMethod)):
@@ -857,10 +1054,10 @@ class Interp:
             return Slice(a[0], a[1], a[2])
         if name == 'print':
             return Const(None)
-        if name == 'map' and len(args) == 2:
-            it = self.iterate(args[1], node)
-            if it is not None:
-                return Tup([self.call_value(args[0], [x], {}, node, frame) for x in it])
+        if name == 'map' and len(args) >= 2:
+            its = [self.iterate(a, node) for a in args[1:]]
+            if all(i is not None for i in its):
+                return Tup([self.call_value(args[0], list(xs), {}, node, frame) for xs in zip(*its)])
         return Unknown('builtin %s' % name)
 
     def _isinstance(self, v, t):
@@ -1345,6 +1542,9 @@ class Interp:
             r = self.dom.getattr(o, name, node)
             if r is not None:
                 return r
+            cv = self._class_attr(o.ci, name)
+            if cv is not None:
+                return cv
             return Unknown('attr %s of %s' % (name, o.ci.name))
         if isinstance(o, ClassRef):
             mi = self.db.method(o.ci, name)
@@ -1352,6 +1552,31 @@ class Interp:
                 if 'classmethod' in mi.decorators:
                     return FuncRef(mi, bound=o)          # cls.other_factory(...): the class is the first argument
                 return FuncRef(mi)
+            cv = self._class_attr(o.ci, name)
+            if cv is not None:
+                return cv
+            if name == '_make' and self._namedtuple_class(o.ci) is not None:
+                return BoundMethod(self._namedtuple_class(o.ci), '_make')
+        if isinstance(o, NTup):
+            if name in o.fields:
+                return o.field(name)
+            if name == '_fields':
+                return Tup([Const(x) for x in o.fields])
+            if o.ci is not None:
+                mi = self.db.method(o.ci, name)
+                if mi is not None:
+                    if 'property' in mi.decorators:
+                        return self.call_funcinfo(mi, [], {}, o, node)
+                    if 'staticmethod' in mi.decorators:
+                        return FuncRef(mi)
+                    if 'classmethod' in mi.decorators:
+                        return FuncRef(mi, bound=ClassRef(o.ci))
+                    return FuncRef(mi, bound=o)
+                cv = self._class_attr(o.ci, name)
+                if cv is not None:
+                    return cv
+        if isinstance(o, NTClass) and name in ('_make', '_fields'):
+            return Tup([Const(x) for x in o.fields]) if name == '_fields' else BoundMethod(o, '_make')
         r = self.dom.getattr(o, name, node)
         if r is not None:
             return r
@@ -1365,6 +1590,17 @@ class Interp:
             if name == 'imag':
                 return Const(o.v.imag)
         return BoundMethod(o, name)
+
+    def _class_attr(self, ci, name):
+        """a name bound in the body of the class (or of a class it derives from): evaluated in its module"""
+        for c in self.db.class_chain(ci):
+            if name in c.assigns:
+                key = (c.qual, name)
+                if key not in self.globals_cache:
+                    self.globals_cache[key] = Unknown('class attribute %s (in evaluation)' % name)
+                    self.globals_cache[key] = self.ev(c.assigns[name], Frame(None, c.module, {}))
+                return self.globals_cache[key]
+        return None
 
     def ev_Call(self, node, frame):
         # super().method(...): the method of the next class in the chain of the class that defines the current method, bound to self
